@@ -250,4 +250,26 @@ def generate(rng, tier, ctx):
         # rewinding against other extra data / generator must fail as verification does
         cases.append(('rangeproof_rewind %s %s %s %s %s 4096' % (c, proof, hx(nonce), hx((extra or b'') + b'\x00'), pt(g)), ('rewind', 'otherextra')))
         cases.append(('rangeproof_rewind %s %s %s %s %s 4096' % (c, proof, hx(nonce), opt(extra), pt(gens[(gens.index(g) + 1) % 3])), ('rewind', 'othergen')))
+    # ---- message blocks that hit the rare refusal: the prover's stream XOR message block is a scalar >= n (probability
+    # 2^-128 per block for a random message; a caller who knows the nonce can aim for it). The stream is taken from
+    # the model (`rangeproof_genrand`, model only); exp = 0, min_value = 0, min_bits = m make the header predictable.
+    from .c10 import header_bytes, layout
+    first = []
+    for _ in range(6 * n):
+        m = rng.choice([4, 6, 8, 10]); rings, rsizes, npub = layout(m)
+        v = rng.randint(1 << (m - 1), (1 << m) - 1)
+        g = rng.choice(gens); nonce = rng.bytes(32); bl = rng.rand256() % N or 1
+        cp = commit_pt(bl, v, g)
+        first.append(('rangeproof_genrand %s %s %s %s %d' % (hx(nonce), hx(commit_bytes(cp)), hx(header_bytes(0, m, 0)), pt(g), m), m, v, g, nonce, bl, npub, rings))
+    for (l, m, v, g, nonce, bl, npub, rings), o in zip(first, ctx.model([f[0] for f in first])):
+        parts = o.split(' / ')
+        if len(parts) != 3 or parts[0] != '1': continue
+        blocks = [bytes.fromhex(x) for x in parts[2].split(' ')]
+        for j in rng.sample(range(4 * (rings - 1)), min(3, 4 * (rings - 1))):
+            for top in (b'\xff' * 32, b'\xff' * 16 + rng.bytes(16), N.to_bytes(32, 'big'), (N - 1).to_bytes(32, 'big'), bytes(32)):
+                msg = bytearray(rng.bytes(32 * 4 * (rings - 1)) if rng.random() < 0.5 else bytes(32 * 4 * (rings - 1)))
+                msg[32 * j:32 * j + 32] = bytes(a ^ c for a, c in zip(blocks[j], top))
+                cls = 'msg-xor-stream-' + ('ones' if top[0] == 0xff and top[31] == 0xff else 'ge-n' if top[:16] == b'\xff' * 16 else 'eq-n' if top == N.to_bytes(32, 'big') else 'n-1' if top != bytes(32) else 'zero')
+                ln = sign_line(0, bl, nonce, 0, m, v, bytes(msg), None, g, 5134)
+                if ln: cases.append((ln, ('sign_crafted', cls)))
     return cases
